@@ -434,6 +434,8 @@ Inductive stmt :=
 | SRepeat (b : block) (c : cond)
 | SFor (a z : N) (b : block)               (* for i = a, z do b end ; i is not used *)
 | SBreakIf (c : cond) (b : block)          (* if c then b; break end *)
+| SAssert (c : cond)                       (* assert(c) *)
+| SReturnIf (err : bool) (c : cond) (b : block)   (* if c then b; return end   /   if c then b; error('e') end *)
 with rest := RNone | RElse (b : block) | RElif (c : cond) (t : block) (r : rest)
 with block := BNil | BCons (s : stmt) (b : block).
 
@@ -452,7 +454,8 @@ Definition lit_ty (l : lit) : bty :=
   end.
 
 (* --------------------------------------------------------------------------------- (A) semantics *)
-Inductive outcome := ONormal | OBreak | OFuel.
+(** [OStop true]: the chunk ended (failed [assert], [error(..)], [return]); [OStop false]: a loop exhausted the fuel *)
+Inductive outcome := ONormal | OBreak | OStop (ended : bool).
 
 (** a probe event: probe id, variable, value, and whether the probe is inside a loop body *)
 Definition event := (N * nat * atom * bool)%type.
@@ -487,7 +490,7 @@ Definition after_body (r : res) (continue_ : env_t -> nat -> list event -> res) 
   match oc with
   | ONormal => continue_ env2 pos2 tr
   | OBreak => (ONormal, env2, pos2, tr)
-  | OFuel => (OFuel, env2, pos2, tr)
+  | OStop r => (OStop r, env2, pos2, tr)
   end.
 
 Definition with_trace (tr : list event) (r : res) : res :=
@@ -499,7 +502,7 @@ Section Loops.
 
   Fixpoint loop_while (n : nat) (env : env_t) (pos : nat) : res :=
     match n with
-    | O => (OFuel, env, pos, [])
+    | O => (OStop false, env, pos, [])
     | S n' =>
         let '(v, p) := cnd env pos in
         if v then after_body (bdy env p) (fun env2 pos2 tr => with_trace tr (loop_while n' env2 pos2))
@@ -508,13 +511,13 @@ Section Loops.
 
   Fixpoint loop_forever (n : nat) (env : env_t) (pos : nat) : res :=
     match n with
-    | O => (OFuel, env, pos, [])
+    | O => (OStop false, env, pos, [])
     | S n' => after_body (bdy env pos) (fun env2 pos2 tr => with_trace tr (loop_forever n' env2 pos2))
     end.
 
   Fixpoint loop_repeat (n : nat) (env : env_t) (pos : nat) : res :=
     match n with
-    | O => (OFuel, env, pos, [])
+    | O => (OStop false, env, pos, [])
     | S n' =>
         after_body (bdy env pos)
           (fun env2 pos2 tr =>
@@ -545,6 +548,15 @@ Section Exec.
         if v then
           let '(oc, env2, pos2, tr) := exec_block inl b env p in
           match oc with ONormal => (OBreak, env2, pos2, tr) | _ => (oc, env2, pos2, tr) end
+        else (ONormal, env, p, [])
+    | SAssert c =>
+        let '(v, p) := eval o c env pos in
+        if v then (ONormal, env, p, []) else (OStop true, env, p, [])
+    | SReturnIf _ c b =>
+        let '(v, p) := eval o c env pos in
+        if v then
+          let '(oc, env2, pos2, tr) := exec_block inl b env p in
+          match oc with ONormal => (OStop true, env2, pos2, tr) | _ => (oc, env2, pos2, tr) end
         else (ONormal, env, p, [])
     | SWhile c b => loop_while (eval o c) (exec_block true b) fuel env pos
     | SWhileTrue b => loop_forever (exec_block true b) fuel env pos
@@ -637,6 +649,15 @@ Section Infer.
         let '(e, br, pr) := bblock inl b (fin tl cur) in
         (* the Break node is an ordinary node whose antecedent is the end of the block *)
         (fl, br ++ [force e], pr)
+    | SAssert c =>
+        (* bind_assert_stat: the flow continues from the true edges; the false edges go to the unreachable node *)
+        let '(tl, fl) := bindc x c cur in
+        (fin tl cur, [], [])
+    | SReturnIf _ c b =>
+        (* bind_return_stat / error(..): the Return node ends the then-block; the statement continues from the false edges *)
+        let '(tl, fl) := bindc x c cur in
+        let '(e, br, pr) := bblock inl b (fin tl cur) in
+        (fl, br, pr)
     | SWhile c b =>
         (* bind_while_stat, non-literal condition: the flow after the loop is the flow before it *)
         let '(tl, fl) := bindc x c cur in
@@ -685,7 +706,8 @@ Fixpoint assigns_s (x : nat) (s : stmt) : bool :=
   | SAssign y _ => Nat.eqb x y
   | SProbe _ _ => false
   | SIf _ t r => assigns_b x t || assigns_r x r
-  | SWhile _ b | SWhileTrue b | SRepeat b _ | SFor _ _ b | SBreakIf _ b => assigns_b x b
+  | SWhile _ b | SWhileTrue b | SRepeat b _ | SFor _ _ b | SBreakIf _ b | SReturnIf _ _ b => assigns_b x b
+  | SAssert _ => false
   end
 with assigns_r (x : nat) (r : rest) : bool :=
   match r with
